@@ -30,7 +30,8 @@ FOUR = ("circ4", "con4", "gal4", "incr4", "line4", "nl4", "sup4")
 def REQUIRED(tier):  # noqa: N802
     return {"length_evaluations": 1000, "bye_replacements": 5000,
             "optimum_instances": 2 if tier == "quick" else 7,
-            "asymmetric_matrices": 50, "size_window_plans": 10}
+            "asymmetric_matrices": 50, "size_window_plans": 10,
+            "one_long_directed_trip_matrices": 20}
 
 
 def plan(tier: str, seed: int):
@@ -161,6 +162,23 @@ def optimum(ctx, name):
                 "feasible_plans": len(feas), "best_plan": best_plan})
 
 
+def gen_directed_trip(rng, n, rounds):
+    """One long directed trip, everything else short: the sum of the row
+    maxima (what the instance sizes its integer type by) is hardly larger
+    than the longest distance, and times rounds * n it sits just below a
+    type limit - while bye penalties are 2 * max + 1 per day off."""
+    lim = int(rng.choice([127, 32767, 2 ** 31 - 1]))
+    small = 7
+    big = lim // (rounds * n) - small * (n - 1) - int(rng.integers(0, 3))
+    if big <= small:
+        return None
+    m = [[0 if i == j else int(rng.integers(1, small + 1))
+          for j in range(n)] for i in range(n)]
+    a, b = (int(v) for v in rng.choice(n, 2, replace=False))
+    m[a][b] = big
+    return m
+
+
 def gen_matrix(rng, n):
     kind = int(rng.integers(7))
     m = [[0] * n for _ in range(n)]
@@ -276,9 +294,17 @@ def random_shard(ctx, count):
         cfg = (rounds, 1, min(3, ll), 1, min(3, ll), min(1, ll), ll)
         D = (n - 1) * rounds
         matrix, mk = gen_matrix(rng, n)
+        trip = None
+        if it % 7 == 3 and n >= 3:
+            trip = gen_directed_trip(rng, n, rounds)
+            if trip is not None:
+                matrix, mk = trip, "asym"
+                ctx.count("one_long_directed_trip_matrices")
         ctx.count("asymmetric_matrices" if mk == "asym"
                   else "symmetric_matrices")
         kind = it % 5
+        if trip is not None:
+            kind = 5
         if kind == 0:
             p = [[int(v) for v in rng.integers(-n, n + 1, n)]
                  for _ in range(D)]
@@ -303,6 +329,18 @@ def random_shard(ctx, count):
                 p[int(rng.integers(D))][int(rng.integers(n))] = int(
                     rng.integers(-n, n + 1))
             tag = "circle+edits"
+        elif kind == 5:
+            # one team (or two) has (almost) every day off
+            p = ot.circle_method(n, rounds, True)
+            for t in {int(v) for v in rng.choice(n, int(rng.integers(1, 3)),
+                                                 replace=False)}:
+                keep = int(rng.integers(0, 2))
+                days_on = set(int(v) for v in rng.choice(D, keep,
+                                                         replace=False))
+                for d in range(D):
+                    if d not in days_on:
+                        p[d][t] = 0
+            tag = "team-days-off"
         else:
             # long away trips: everyone away all the time / extremes
             p = [[-(((a + 1 + d) % n) + 1) for a in range(n)]
